@@ -7,9 +7,10 @@
       are), SetOffset / SetKIndex change only their field, the type-prefix tests identify the
       constructor, KIndexFromInt / Index8FromInt succeed iff the index is in range.
   (2) What happens beyond the limits (Model.Limits + the regenerated panic-site table
-      Generated.PanicSites): the register limit is a designated compile error; the other limits are raw
-      panics or silently wrong code — proved `…_counterexample`s with concrete sizes, each replayed on
-      the implementation by `./check C04`.
+      Generated.PanicSites): exceeding the register, constant, fill-index or function-length limit is a
+      designated compile error for every size; the remaining raw panic sites of the compile back end are
+      unreachable behind those guards or size-independent invariants; with the function-length guard no
+      stored jump offset is ever truncated and the int16 program counter never wraps.
   Proofs: kernel only (simp with BitVec lemmas, omega, decide on ≤ 8-bit quantifiers).
 -/
 import GoluaVerif.Generated.Opcode
@@ -317,7 +318,7 @@ theorem loadSmallInt_checks_range (r : Reg) (n : BitVec 64) :
   · have hb : (BitVec.signExtend 64 (BitVec.truncate 16 n) != n) = true := bne_iff_ne.mpr h
     simp [hb, h]
 
-/-! ## Jump offsets: the unchecked int → int16 conversion -/
+/-! ## Jump offsets: the int → int16 conversion -/
 
 /-- Builder.EmitJump / EmitLabel store `Offset(to - from)`: faithful iff the distance fits int16 -/
 theorem jump_offset_faithful_iff (d : Int) :
@@ -332,16 +333,7 @@ theorem jump_offset_faithful_iff (d : Int) :
     rw [BitVec.toInt_ofInt]
     apply Int.bmod_eq_of_le <;> omega
 
-/-- a jump over 40 000 opcodes is stored as −25 536: the VM jumps BACKWARDS (no compile error, no panic
-at compile time); replayed by the templates `forward-jump-*` of the crash search -/
-theorem offset_truncation_counterexample :
-    (Opcode.GetOffset (Limits.emitJump (Jump 0#16) 10 40010)).toInt = -25536 ∧
-    Limits.jumpTarget (Limits.emitJump (Jump 0#16) 10 40010) 10 = -25526 ∧
-    -- and a jump over 66 000 opcodes lands 464 opcodes further, inside the skipped body
-    Limits.jumpTarget (Limits.emitJump (Jump 0#16) 10 66010) 10 = 474 := by decide
-
-/-- when a function has at most 32 767 opcodes every jump inside it is encoded faithfully:
-the only missing check is the function length -/
+/-- when a function has at most 32 767 opcodes every jump distance inside it fits the int16 offset -/
 theorem jump_in_short_function_faithful (len fromAddr toAddr : Nat) (hlen : Limits.fnLenOk len = true)
     (hf : fromAddr < len) (ht : toAddr ≤ len) :
     (BitVec.ofInt 16 ((toAddr : Int) - fromAddr)).toInt = (toAddr : Int) - fromAddr := by
@@ -351,11 +343,8 @@ theorem jump_in_short_function_faithful (len fromAddr toAddr : Nat) (hlen : Limi
 
 example : Limits.fnLenOk 32767 = true ∧ (100 : Nat) < 32767 ∧ (32767 : Nat) ≤ 32767 := by decide
 
-/-- the program counter is an int16: in a function of more than 32 767 opcodes `pc++` wraps to
-−32768 and the next fetch `opcodes[pc]` is a Go index-out-of-range panic -/
-theorem pc_overflow_counterexample :
-    ∃ pc : BitVec 16, pc.toInt = 32767 ∧ (Limits.pcNext pc).toInt = -32768 := ⟨32767#16, by decide⟩
-
+/-- the program counter is an int16; below 32 767 `pc++` is exact, and ProcessCode's guard keeps every
+opcode index of a compiled function below 32 767 (see `pc_never_wraps_in_compiled_function`) -/
 theorem pc_no_overflow_in_short_function (pc : BitVec 16) (h0 : 0 ≤ pc.toInt) (h : pc.toInt < 32767) :
     (Limits.pcNext pc).toInt = pc.toInt + 1 := by
   unfold Limits.pcNext
@@ -454,34 +443,145 @@ theorem etc_lookup_guard_unreachable (targets : Nat)
 
 example : Limits.liveRegsOutcome 3 = .ok := by decide +kernel
 
-/-- > 65 535 constants in a unit: a RAW panic escapes the compile functions (witness 65 537 entries);
-replayed by templates `nest-functions`, `nest-funcexp` -/
-theorem constants_limit_counterexample :
-    Limits.designated "code" "KIndexFromInt" = some false ∧
-    Limits.constantsOutcome 65536 = .ok ∧
-    Limits.constantsOutcome 65537 = .goPanic "constant index out of range" := by
-  refine ⟨by decide, ?_, ?_⟩ <;> decide +kernel
+/-- the close-stack height guard is a raw panic too, and equally unreachable: every to-be-closed variable
+in scope occupies a live register -/
+theorem closestack_guard_unreachable (tbc : Nat) (hok : Limits.liveRegsOutcome tbc = .ok) (h : Nat) (hh : h ≤ tbc) :
+    ∃ op, Limits.truncateCloseStack h = .ok op := by
+  have ht : tbc ≤ 255 := by
+    by_cases h' : tbc ≤ 255
+    · exact h'
+    · have := (limit_exceeded_is_error_registers tbc).2.2 (by omega)
+      rw [this] at hok; cases hok
+  unfold Limits.truncateCloseStack
+  have hc : ¬ ((h : Int) < 0 ∨ (h : Int) ≥ 65536) := by omega
+  rw [if_neg hc]
+  exact ⟨_, rfl⟩
 
-/-- a table constructor with 255 positional items followed by a call / `...`: a RAW panic escapes
-(254 items are fine); replayed by templates `list-items-then-call`, `list-items-then-vararg` -/
-theorem fill_table_limit_counterexample :
-    Limits.designated "ircomp" "instrCompiler.ProcessFillTableInstr" = some false ∧
-    Limits.tableCtorWithTail 254 = .ok ∧
-    Limits.tableCtorWithTail 255 = .goPanic "Fill table index out of range" ∧
-    Limits.tableCtorWithTail 300 = .goPanic "Fill table index out of range" := by
-  refine ⟨by decide, ?_, ?_, ?_⟩ <;> decide +kernel
+example : Limits.liveRegsOutcome 2 = .ok ∧ (1 : Nat) ≤ 2 := ⟨by decide +kernel, by decide⟩
 
-/-- the property "exceeding an implementation limit is reported as a compile error" as far as the model
-goes: of the five guarded quantities only the register count is turned into an error value; function
-length is not guarded at all.  `_partial`: missing for the full property is a model of astcomp/ircomp precise
-enough to compute, for every program, its register demand, constant count and code length (those are
-measured on the real compiler by the `limits` correspondence instead). -/
+/-- more than 65 536 constants in a unit is the designated compile error, for every size; below, the
+regenerated KIndexFromInt never panics (its own raw panic is unreachable behind instrCompiler.kindex) -/
+theorem limit_exceeded_is_error_constants (total : Nat) :
+    Limits.designated "ircomp" "instrCompiler.kindex" = some true ∧
+    (total ≤ 65536 → Limits.constantsOutcome total = .ok) ∧
+    (65536 < total → ∃ m, Limits.constantsOutcome total = .compileError m) := by
+  refine ⟨by decide, ?_, ?_⟩
+  · intro h
+    unfold Limits.constantsOutcome
+    by_cases h0 : total = 0
+    · simp [h0]
+    · simp only [h0, if_false]
+      have hc : ¬ ((total : Int) - 1 > 65535) := by omega
+      have e : (total : Int) - 1 = ((total - 1 : Nat) : Int) := by omega
+      obtain ⟨k, hk', _⟩ := (kindex_in_range_or_panic (BitVec.ofInt 64 ((total : Int) - 1))).1 (by
+        rw [e, Proofs.LimitsLemmas.toInt_ofInt_small _ (by omega)]; omega)
+      simp only [Limits.loadConst, Limits.kindex, if_neg hc, hk', Limits.outcomeOf]
+  · intro h
+    refine ⟨Limits.siteMsg "ircomp" "instrCompiler.kindex", ?_⟩
+    unfold Limits.constantsOutcome
+    have h0 : total ≠ 0 := by omega
+    have hc : (total : Int) - 1 > 65535 := by omega
+    simp only [h0, if_false, Limits.loadConst, Limits.kindex, if_pos hc, Limits.outcomeOf]
+    decide
+
+example : (65536 : Nat) ≤ 65536 ∧ (65536 : Nat) < 65537 := by decide
+
+/-- a table constructor with `n` positional items followed by a call / `...`: ok up to 254 items, the
+designated compile error from 255 on, for every n (Index8FromInt's raw panic is unreachable behind the guard) -/
+theorem limit_exceeded_is_error_fill_table (n : Nat) :
+    Limits.designated "ircomp" "instrCompiler.ProcessFillTableInstr" = some true ∧
+    (n ≤ 254 → Limits.tableCtorWithTail n = .ok) ∧
+    (254 < n → ∃ m, Limits.tableCtorWithTail n = .compileError m) := by
+  refine ⟨by decide, ?_, ?_⟩
+  · intro h
+    unfold Limits.tableCtorWithTail Limits.fillTable
+    have hc : ¬ (((n : Int) + 1) < 0 ∨ ((n : Int) + 1) ≥ 256) := by omega
+    rw [if_neg hc]
+    have e : ((n : Int) + 1) = ((n + 1 : Nat) : Int) := by omega
+    obtain ⟨k, hk, _⟩ := (index8_in_range_or_panic (BitVec.ofInt 64 ((n : Int) + 1))).1 (by
+      rw [e, Proofs.LimitsLemmas.toInt_ofInt_small _ (by omega)]; omega)
+    simp only [FillTable, hk, bind, Except.bind, pure, Except.pure, Limits.outcomeOf]
+  · intro h
+    refine ⟨Limits.siteMsg "ircomp" "instrCompiler.ProcessFillTableInstr", ?_⟩
+    unfold Limits.tableCtorWithTail Limits.fillTable
+    have hc : (((n : Int) + 1) < 0 ∨ ((n : Int) + 1) ≥ 256) := by omega
+    rw [if_pos hc]
+    decide
+
+example : (254 : Nat) ≤ 254 ∧ (254 : Nat) < 255 := by decide
+
+/-- a function with more than 32 767 opcodes is the designated compile error, for every length -/
+theorem limit_exceeded_is_error_function_length (len : Nat) :
+    Limits.designated "ircomp" "ConstantCompiler.ProcessCode" = some true ∧
+    (len ≤ 32767 → Limits.fnLenOutcome len = .ok) ∧
+    (32767 < len → ∃ m, Limits.fnLenOutcome len = .compileError m) := by
+  refine ⟨by decide, ?_, ?_⟩
+  · intro h
+    have hc : ¬ len > 32767 := by omega
+    simp only [Limits.fnLenOutcome, Limits.processCode, if_neg hc, Limits.outcomeOf]
+  · intro h
+    refine ⟨Limits.siteMsg "ircomp" "ConstantCompiler.ProcessCode", ?_⟩
+    have hc : len > 32767 := by omega
+    simp only [Limits.fnLenOutcome, Limits.processCode, if_pos hc, Limits.outcomeOf]
+    decide
+
+example : (32767 : Nat) ≤ 32767 ∧ (32767 : Nat) < 32768 := by decide
+
+/-- in a function that passed ProcessCode's guard, the offset stored by EmitJump / EmitLabel for a jump
+from `fromAddr` to a label at `toAddr` makes the VM (`pc += int16(GetOffset)`) land exactly on the label:
+the unchecked `Offset(int)` conversion never truncates -/
+theorem jump_offset_never_truncated (op : BitVec 32) (len fromAddr toAddr : Nat)
+    (hc : Limits.fnLenOutcome len = .ok) (hf : fromAddr < len) (ht : toAddr ≤ len) :
+    Limits.jumpTarget (Limits.emitJump op fromAddr toAddr) fromAddr = toAddr := by
+  have hlen : len ≤ 32767 := by
+    by_cases h : len ≤ 32767
+    · exact h
+    · obtain ⟨m, hm⟩ := (limit_exceeded_is_error_function_length len).2.2 (by omega)
+      rw [hm] at hc; cases hc
+  unfold Limits.jumpTarget Limits.emitJump
+  rw [setOffset_roundtrip, ← BitVec.ofInt_add]
+  have e : (fromAddr : Int) + ((toAddr : Int) - fromAddr) = toAddr := by omega
+  rw [e, BitVec.toInt_ofInt]
+  apply Int.bmod_eq_of_le <;> omega
+
+example : Limits.fnLenOutcome 1000 = .ok ∧ (10 : Nat) < 1000 ∧ (1000 : Nat) ≤ 1000 := by decide
+
+/-- and the int16 program counter of a compiled function never wraps: every opcode index is below
+32 767, so `pc++` is exact -/
+theorem pc_never_wraps_in_compiled_function (len idx : Nat) (hc : Limits.fnLenOutcome len = .ok) (hi : idx < len) :
+    (Limits.pcNext (BitVec.ofInt 16 idx)).toInt = idx + 1 := by
+  have hlen : len ≤ 32767 := by
+    by_cases h : len ≤ 32767
+    · exact h
+    · obtain ⟨m, hm⟩ := (limit_exceeded_is_error_function_length len).2.2 (by omega)
+      rw [hm] at hc; cases hc
+  have hidx : (BitVec.ofInt 16 (idx : Int)).toInt = idx := by
+    rw [BitVec.toInt_ofInt]; apply Int.bmod_eq_of_le <;> omega
+  rw [pc_no_overflow_in_short_function _ (by omega) (by omega), hidx]
+
+example : Limits.fnLenOutcome 5 = .ok ∧ (4 : Nat) < 5 := by decide
+
+/-- the per-run obligation over the regenerated table: every `panic(...)` of ircomp/ and code/ is either
+a designated *CompilationPanic, or a raw panic proved unreachable behind a designated guard / the register
+bound (`etc_lookup_guard_unreachable`, `closestack_guard_unreachable`, and the ok-branches of the
+`limit_exceeded_is_error_*` theorems for Index8FromInt / KIndexFromInt), or one of five size-independent
+internal invariants of the compiler that are not modelled.  A new raw panic site fails this theorem. -/
+theorem panic_sites_accounted : Limits.sitesAccounted = true := by decide
+
+/-- "exceeding an implementation limit (registers, constants, jump distance, nesting) is a compile
+error": proved for registers, constants, fill index and function length / jump distance.  `_partial`:
+(a) the NESTING limit is not in the model — the parser and astcomp recurse without a depth limit and very
+deep nesting exhausts the Go stack (finding C04-NESTING-STACK-OVERFLOW, found by the crash search);
+(b) the model takes register demand, constant count and code length of a program as inputs; that the real
+compiler computes them as assumed is tied by the `limits` correspondence, not proved. -/
 theorem limit_exceeded_is_error_partial :
     (∀ n, 255 < n → ∃ m, Limits.liveRegsOutcome n = .compileError m) ∧
-    (∃ n, ∃ m, Limits.constantsOutcome n = .goPanic m) ∧
-    (∃ n, ∃ m, Limits.tableCtorWithTail n = .goPanic m) ∧
-    (∃ len, Limits.fnLenOk len = false ∧ Limits.straightLineOutcome len = some .wrongCode) := by
-  refine ⟨fun n h => ⟨_, (limit_exceeded_is_error_registers n).2.2 h⟩, ⟨65537, _, constants_limit_counterexample.2.2⟩,
-    ⟨255, _, fill_table_limit_counterexample.2.2.1⟩, ⟨32769, by decide⟩⟩
+    (∀ n, 65536 < n → ∃ m, Limits.constantsOutcome n = .compileError m) ∧
+    (∀ n, 254 < n → ∃ m, Limits.tableCtorWithTail n = .compileError m) ∧
+    (∀ n, 32767 < n → ∃ m, Limits.fnLenOutcome n = .compileError m) :=
+  ⟨fun n h => ⟨_, (limit_exceeded_is_error_registers n).2.2 h⟩,
+   fun n h => (limit_exceeded_is_error_constants n).2.2 h,
+   fun n h => (limit_exceeded_is_error_fill_table n).2.2 h,
+   fun n h => (limit_exceeded_is_error_function_length n).2.2 h⟩
 
 end GoluaVerif.Props.C04
